@@ -308,8 +308,8 @@ func writeEvidence(verif, id, tier string, seed int, pr *rules.Property, p *core
 				"build_config":     "default " + p.Config,
 				"timings_s":        p.Timings,
 			},
-			"checker_cmd":   "bin/knutlint -prop " + id + " -tier " + tier,
-			"trusted_base":  []string{"go/types type checker", "golang.org/x/tools v0.29.0 go/ssa + VTA call graph", "shopspring/decimal exact arithmetic"},
+			"checker_cmd":  "bin/knutlint -prop " + id + " -tier " + tier,
+			"trusted_base": []string{"go/types type checker", "golang.org/x/tools v0.29.0 go/ssa + VTA call graph", "shopspring/decimal exact arithmetic"},
 		},
 	}
 	b, _ := json.MarshalIndent(ev, "", " ")
